@@ -2,8 +2,9 @@ CONSTANTS
   MaxA = 3
   MaxM = 3
   Statuses = {"run", "timeout", "unchecked"}
-  WithExc = TRUE
+  WithExc = FALSE
   MaxCount = 5
+  UseCritical = FALSE
   Hazard = "none"
 SPECIFICATION Spec
 INVARIANT TypeOK
